@@ -98,4 +98,42 @@ def seqBA : List Bool := [false, false, true, true]
 def spacing (lastCheck now : Int) : Bool × Int :=
   if lastCheck + 2 > now then (false, lastCheck) else (true, now)
 
+/-! ### hardware-token login challenge: begin / look up / verify / consume
+
+`u2fSignRequest` / `webauthnAuthLogin` store a fresh challenge for the user (`begin`);
+`u2fSignResponse` / `webauthnAuthFinish` look the pending challenge up under the mutex (`lookup`),
+verify the signed response against it outside the mutex, and then — in a second critical section —
+consume it (`consume`).  Each of the three is one atomic step; any number of requests interleave. -/
+
+inductive ChEv
+  | begin                 -- a new challenge replaces the pending one
+  | lookup (r : Nat)      -- request r reads the pending challenge
+  | consume (r : Nat)     -- request r, its response verified against what it read, consumes
+  | expire                -- the periodic cleanup removes the pending challenge
+deriving DecidableEq, Repr
+
+structure ChSt where
+  pending : Option Nat          -- id of the pending challenge
+  next : Nat                    -- next fresh challenge id
+  seen : Nat → Option Nat       -- what request r found at its lookup
+  honoured : List Nat           -- challenge ids whose presentation raised a session, newest first
+
+def ChSt.init : ChSt := { pending := none, next := 0, seen := fun _ => none, honoured := [] }
+
+/-- `cas = true`: `consumeLoginChallenge` (remove only if still the challenge that was read);
+`cas = false`: the function as found (`delete` unconditionally) -/
+def chStep (cas : Bool) (s : ChSt) : ChEv → ChSt
+  | .begin => { s with pending := some s.next, next := s.next + 1 }
+  | .lookup r => { s with seen := fun q => if q = r then s.pending else s.seen q }
+  | .expire => { s with pending := none }
+  | .consume r =>
+    match s.seen r with
+    | none => s                                         -- "challenge missing": answered at the lookup
+    | some c =>
+      if cas then
+        (if s.pending = some c then { s with pending := none, honoured := c :: s.honoured } else s)
+      else { s with pending := none, honoured := c :: s.honoured }
+
+def chRun (cas : Bool) (s : ChSt) (evs : List ChEv) : ChSt := evs.foldl (chStep cas) s
+
 end KM.Conc
